@@ -6,12 +6,17 @@ from .. import lbgen, lbshadow
 from . import c02
 
 ID = "C04"
-MODULES = ["Helios.Props.C04", "Helios.Props.C04M"]
+MODULES = ["Helios.Props.C04", "Helios.Props.C04M", "Helios.Props.Code"]
 THEOREMS = ["Helios.LB.passive_below_threshold", "Helios.LB.passive_at_threshold", "Helios.LB.finish_no_eject",
             "Helios.LB.probe_fail_ejects", "Helios.LB.probe_ok_never_ejects", "Helios.LB.no_traffic_in_window",
             "Helios.LB.recovers_after_window", "Helios.LB.lazy_expiry", "Helios.LB.eject_mirror",
             "Helios.LB.isHealthyAt_mirror", "Helios.LB.probeEnd_ok_keeps_window",
-            "Helios.LB.mi_step", "Helios.LB.mirror_ok_run", "Helios.LB.eject_survives_expiry_check"]
+            "Helios.LB.mi_step", "Helios.LB.mirror_ok_run", "Helios.LB.eject_survives_expiry_check",
+            # Tie C: the Go functions of the health state machine, translated, equal the model's steps
+            "Helios.CodeTie.markUnhealthy_refines", "Helios.CodeTie.isBackendHealthy_refines",
+            "Helios.CodeTie.processResponse_refines", "Helios.CodeTie.handleFailure_is_eject",
+            "Helios.CodeTie.isHealthyAt_checkObj", "Helios.CodeTie.probeEnd_probeEndObj",
+            "Helios.CodeTie.passive_refines", "Helios.CodeTie.passiveFail_passiveObj", "Helios.CodeTie.translation_clean"]
 SEC = lbgen.SEC
 
 
